@@ -156,8 +156,9 @@ def parseAddrFam (s : String) : R AddrFam :=
   else if s == "link" then .ok .link else if s == "other" then .ok .other else .error s!"bad family {s}"
 
 /-- the broadcast address read off the specification's bit-wise definition -/
-def specBroadcast (a n : Nat) : Nat :=
-  (List.range 32).foldl (fun acc i => if i < 32 - n || a.testBit i then acc + 2 ^ i else acc) 0
+def specBroadcastW (width a n : Nat) : Nat :=
+  (List.range width).foldl (fun acc i => if i < width - n || a.testBit i then acc + 2 ^ i else acc) 0
+def specBroadcast (a n : Nat) : Nat := specBroadcastW 32 a n
 
 def handleNetif (j : Json) : R Json := do
   let windows ← boolF j "windows"
@@ -174,6 +175,10 @@ def handleNetif (j : Json) : R Json := do
     if windows && fam == .inet then
       match plen with
       | some n => if n ≤ 32 then some (specBroadcast ip n) else bcast
+      | none => bcast
+    else if windows && fam == .inet6 then
+      match plen with
+      | some n => if n ≤ 128 then some (specBroadcastW 128 ip n) else bcast
       | none => bcast
     else bcast
   return jObj [
